@@ -315,6 +315,7 @@ func init() {
 	}
 	H["google.golang.org/protobuf/proto.Marshal"] = func(fr *frame, a []value) value { return tuple{put("P", a[0]), iface{}} }
 	H["google.golang.org/protobuf/proto.Unmarshal"] = func(fr *frame, a []value) value { return unput(fr, "proto", a) }
+	H["google.golang.org/protobuf/proto.Equal"] = func(fr *frame, a []value) value { return deepEqValue(a[0], a[1]) }
 	H["google.golang.org/protobuf/proto.Clone"] = func(fr *frame, a []value) value { return deepCopy(a[0]) }
 	// content hash: a function of the (canonical) handle bytes
 	H["github.com/minio/blake2b-simd.Sum256"] = func(fr *frame, a []value) value {
